@@ -111,7 +111,7 @@ class FuncView:
     def facts(self, astnode, avoid=()):
         key = tuple(sorted(n.idx for n in avoid))
         if key not in self._facts:
-            self._facts[key] = _facts(self.cfg, self._kill_fn(), avoid)
+            self._facts[key] = _facts(self.cfg, self._kill_fn(), avoid, self._gen_fn())
         facts, unreached = self._facts[key]
         node = self.node(astnode)
         if node.idx in unreached:
@@ -139,6 +139,49 @@ class FuncView:
             return out
         self._kills = kills
         return kills
+
+    def _gen_fn(self):
+        ''' Post-conditions of calls to repo methods that start with
+        ``if COND: raise`` guards: after the call returns, COND is false.
+        Only facts about self attributes are kept. '''
+        if self.clsname is None:
+            return None
+        fv = self
+
+        def gens(stmt):
+            out = []
+            if not isinstance(stmt, (ast.Expr, ast.Assign)) or not isinstance(stmt.value, ast.Call):
+                return out
+            call = stmt.value
+            name = call_name(call) or ''
+            parts = name.split('.')
+            meth = None
+            if len(parts) == 2 and parts[0] == 'self':
+                got = fv.tree.find_method(fv.rel, fv.clsname, parts[1])
+                # a subclass override could weaken the guard: only exact Base.m(self) and non-overridden self.m()
+                if got and not any(parts[1] in [i.name for i in sub.body if isinstance(i, ast.FunctionDef)]
+                                   for (_r, sub) in fv.tree.subclasses(got[0], got[1].name)):
+                    meth = got[2]
+            elif len(parts) == 2 and call.args and isinstance(call.args[0], ast.Name) and call.args[0].id == 'self':
+                got = fv.tree.resolve_expr_class(fv.rel, call.func.value)
+                if got:
+                    fm = fv.tree.find_method(got[0], got[1].name, parts[1])
+                    meth = fm[2] if fm else None
+            if meth is None:
+                return out
+            for st in meth.body:
+                if isinstance(st, ast.Expr) and isinstance(st.value, ast.Constant):
+                    continue
+                if isinstance(st, ast.Expr) and isinstance(st.value, ast.Call) and is_logging_call(st.value):
+                    continue
+                if isinstance(st, ast.If) and not st.orelse and len(st.body) == 1 and isinstance(st.body[0], ast.Raise):
+                    for (text, pol) in norm.cond_facts(st.test, False):
+                        if text.startswith('self.') or ' self.' in text:
+                            out.append((text, pol))
+                    continue
+                break
+            return out
+        return gens
 
     def has(self, astnode, text, pol, avoid=()):
         facts = self.facts(astnode, avoid)
@@ -201,16 +244,16 @@ class FuncView:
         return Sub().visit(copy.deepcopy(expr))
 
 
-def _facts(cfg, kills, avoid):
+def _facts(cfg, kills, avoid, gens=None):
     if not avoid:
-        return cfg.facts(kills)
+        return cfg.facts(kills, gens)
     # temporarily cut the avoided nodes out of the graph
     saved = []
     for node in avoid:
         saved.append((node, list(node.succ)))
         node.succ = []
     try:
-        return cfg.facts(kills)
+        return cfg.facts(kills, gens)
     finally:
         for (node, succ) in saved:
             node.succ = succ
